@@ -20,6 +20,7 @@ import (
 const (
 	c03Notice = slog.Level(18) // custom, treated as Info, normal device
 	c03Swell  = slog.Level(19) // custom, treated as Error, error device
+	c03Late   = slog.Level(31) // custom, treated as Error, error device - registered by its probe, i.e. after the history
 )
 
 type c03world struct {
@@ -29,6 +30,7 @@ type c03world struct {
 	l       *slog.Entry
 	soOff   int64
 	seOff   int64
+	w1file  *os.File // root 3: writer w1 is this file
 }
 
 var c03levels = []slog.Level{slog.InfoLevel, slog.ErrorLevel, c03Swell}
@@ -182,14 +184,24 @@ func c03ops() []c03op {
 	return ops
 }
 
-var c03roots = []string{"fresh detached logger", "child of a configured parent", "first op given as New(...) option"}
+var c03roots = []string{"fresh detached logger", "child of a configured parent", "first op given as New(...) option", "fresh detached logger; writer w1 is an *os.File"}
 
 func c03newWorld(root int, firstOpt *c03op) *c03world {
 	resetGlobals()
 	_ = slog.RegisterLevel(c03Notice, "notice18", slog.RegWithTreatedAsLevel(slog.InfoLevel))
 	_ = slog.RegisterLevel(c03Swell, "swell19", slog.RegWithTreatedAsLevel(slog.ErrorLevel), slog.RegWithPrintToErrorDevice(true))
 	w := &c03world{rec: &recorder{}, names: map[io.Writer]string{}}
-	w1 := &plainW{"w1", w.rec}
+	var w1 io.Writer = &plainW{"w1", w.rec}
+	if root == 3 {
+		// the first writer of the pool is an *os.File (what it receives is read back from the file)
+		f, err := os.CreateTemp("", "verif-c03-w1-*")
+		if err != nil {
+			panic(err)
+		}
+		os.Remove(f.Name()) // the open descriptor is all that is needed
+		w.w1file = f
+		w1 = f
+	}
 	w2 := &closerW{plainW: plainW{"w2", w.rec}}
 	w3 := &levelW{plainW{"w3", w.rec}}
 	w.writers = []io.Writer{w1, w2, w3}
@@ -197,7 +209,7 @@ func c03newWorld(root int, firstOpt *c03op) *c03world {
 	so, se := slog.VerifStdFiles()
 	w.names[so], w.names[se] = "stdout", "stderr"
 	switch root {
-	case 0:
+	case 0, 3:
 		w.l = slog.VerifEntryOf(slog.New("L", slog.WithLevel(slog.TraceLevel)))
 	case 1:
 		px := &plainW{"parentw", w.rec}
@@ -286,13 +298,17 @@ var c03probes = []struct {
 	{"Fail", slog.FailLevel, func(l *slog.Entry) { l.Fail("p-fail") }},
 	{"swell19(error device)", c03Swell, func(l *slog.Entry) { l.LogAttrs(bg, c03Swell, "p-swell") }},
 	{"notice18", c03Notice, func(l *slog.Entry) { l.LogAttrs(bg, c03Notice, "p-notice") }},
+	{"late31 (error device, registered after the writers were configured)", c03Late, func(l *slog.Entry) {
+		_ = slog.RegisterLevel(c03Late, "late31", slog.RegWithTreatedAsLevel(slog.ErrorLevel), slog.RegWithPrintToErrorDevice(true))
+		l.LogAttrs(bg, c03Late, "p-late")
+	}},
 }
 
 func refSelect(m c03cfg, lvl slog.Level) []string {
 	if v := m.Leveled[levelName(lvl)]; len(v) > 0 {
 		return v
 	}
-	if refErrorClass(lvl, map[slog.Level]bool{c03Swell: true}) {
+	if refErrorClass(lvl, map[slog.Level]bool{c03Swell: true, c03Late: true}) {
 		return m.Error
 	}
 	return m.Normal
@@ -309,6 +325,11 @@ func c03replay(ops []c03op, cas c03case, probeAll bool) (v *Violation, finalKey 
 		return mkViolation("C03|"+clause+"|"+sigTail, clause, detail+" [root: "+c03roots[cas.Root]+"; history: "+strings.Join(cc.Text, "; ")+"]", cc)
 	}
 	var w *c03world
+	defer func() {
+		if w != nil && w.w1file != nil {
+			w.w1file.Close()
+		}
+	}()
 	model := c03default()
 	start := 0
 	if cas.Root == 2 {
@@ -341,6 +362,12 @@ func c03replay(ops []c03op, cas c03case, probeAll bool) (v *Violation, finalKey 
 			p := c03probes[pi2/2] // each severity twice in a row: the second record of a severity must be told the severity again
 			w.rec.reset()
 			so0, se0 := fileSize(stdoutFile), fileSize(stderrFile)
+			var f0 int64
+			if w.w1file != nil {
+				if st, err := w.w1file.Stat(); err == nil {
+					f0 = st.Size()
+				}
+			}
 			pan := catch(func() { p.f(w.l) })
 			if pan != "" {
 				return mkv("probe-returns", "severity="+p.name+"|panic", "probe panicked: "+firstLine(pan), upto)
@@ -361,6 +388,13 @@ func c03replay(ops []c03op, cas c03case, probeAll bool) (v *Violation, finalKey 
 			}
 			if se1 := fileSize(stderrFile); se1 > se0 {
 				got["stderr"] = strings.Count(readFrom(stderrFile, se0), "\n")
+			}
+			if w.w1file != nil {
+				if st, err := w.w1file.Stat(); err == nil && st.Size() > f0 {
+					buf := make([]byte, st.Size()-f0)
+					_, _ = w.w1file.ReadAt(buf, f0)
+					got["w1"] = strings.Count(string(buf), "\n")
+				}
 			}
 			for _, n := range []string{"w1", "w2", "w3", "stdout", "stderr", "parentw"} {
 				if got[n] != want[n] {
@@ -473,7 +507,7 @@ func c03run(c *Ctx) {
 	c.Info("probes_per_state", len(c03probes))
 	seen := map[string]bool{}
 	var frontier []c03case
-	for root := 0; root < 2; root++ {
+	for _, root := range []int{0, 1, 3} {
 		cas := c03case{Root: root}
 		v, k, _ := c03replay(ops, cas, false)
 		c.Count("transitions", 1)
